@@ -15,7 +15,7 @@ import math
 
 from ..kernel import World, Skip, HarnessError
 
-NAMES = ("a", "b", "c", "d")
+NAMES = ("a", "b", "c", "d", "X", "Y")      # "X" / "Y" are ordinary feature names: only the lower-case x, y, z are reserved
 RESERVED = ("x", "y", "z", "t", "timestamp", "idx")
 UNARY = ("IDENTITY", "INVERTER", "SQUARE", "RECTIFIER", "SHIFT_RIGHT", "SHIFT_LEFT",
          "DIFFERENTIATOR", "INTEGRATOR")
@@ -167,7 +167,7 @@ class TrackWorld(World):
                 "fam": w, "ops": ops, "size_bias": r.choice(["tiny", "pow2", "any"] * 5 + ["big"]),
                 "n_instants": r.choice([1, 2, 4, 6]), "calendar": r.random() < 0.3,
                 "with_features": r.random() < (0.3 if focus == "C04" else 0.6),
-                "fork_rate": r.choice([0, 0.02, 0.08]), "names": list(NAMES[: r.choice([2, 3, 4, 4])]),
+                "fork_rate": r.choice([0, 0.02, 0.08]), "names": list(NAMES[: r.choice([2, 3, 4, 4])]) if r.random() < 0.85 else ["a", "X", "b", "Y"],
                 "sorted_tracks": 0.9 if focus == "C17" else r.choice([0.2, 0.6, 0.9]),
                 "renew": r.choice([0.01, 0.05, 0.15]), "callable_faults": r.choice([0, 0, 0.15, 0.4]),
                 "np_time": r.random() < 0.08, "zones": r.random() < 0.1}
